@@ -9,6 +9,15 @@
  *   cmp sign|diff|sat : re-create all trees with that comparator: (k>x)-(k<x) | (int)(k-x)
  *              (keys limited to |k| < 2^30, others are bad-op) | k-x saturated to
  *              [INT_MIN, INT_MAX] (returns exactly INT_MIN / INT_MAX for far-apart keys)
+ *   height   : `hb=<0|1> ## h=<height> n=<nodes> lim=<2*floor(log2(n+1))>`
+ *   bulk asc|desc|alt|rnd N [S] : insert N keys (1..N ascending / descending / 1,N,2,N-1,.. /
+ *              pseudo-random 29-bit keys from seed S) without per-op output, then one
+ *              mutating-op line `bulk=<nodes linked> c=.. ..` (big trees stay cheap)
+ *   nwalk O I tM i1,i2,.. : NESTED walks: walk the addressed tree in order O (in|pre|post); at
+ *              the visit numbers i1<i2<.. (0-based, at most 8) the walker callback itself runs
+ *              a complete walk of tree M in order I.  Prints the outer visit sequence and
+ *              every inner one (in-order sequences as they are, pre/post sorted; raw order
+ *              after " ## ").  Walks are read-only, so nesting must not change any sequence.
  *   reins K : aatree_insert() once more with the node object that is ALREADY linked in the
  *             tree for key K (a present-key insert with the caller's own, linked node);
  *             nothing is called when K is absent (reins=0)
@@ -22,6 +31,7 @@
 #include "hcommon.h"
 #include <stdarg.h>
 #include <limits.h>
+#include <setjmp.h>
 #include <usual/aatree.h>
 
 struct N {
@@ -365,6 +375,159 @@ static void op_rem(long long k)
 	mut_line("rem", 0);
 }
 
+static int parse_nat(const char *s, long *out);
+
+/* ---- height */
+static void op_height(void)
+{
+	size_t n = t_size(tree.root), h = t_height(tree.root), lim = 2 * (size_t)ilog2(n + 1);
+	printf("hb=%d ## h=%zu n=%zu lim=%zu\n", h <= lim ? 1 : 0, h, n, lim);
+}
+
+/* ---- bulk insertion without per-op output */
+static uint64_t mix64(uint64_t z)
+{
+	z *= 0x9E3779B97F4A7C15ULL;
+	z = (z ^ (z >> 30)) * 0xBF58476D1CE4E5B9ULL;
+	z = (z ^ (z >> 27)) * 0x94D049BB133111EBULL;
+	return z ^ (z >> 31);
+}
+
+static int bulk_ins(long long k)
+{
+	struct N *x = calloc(1, sizeof *x);
+	x->key = k;
+	x->n.left = x->n.right = (struct AANode *)(uintptr_t)0x10;
+	x->n.level = 77;
+	aatree_insert(&tree, (uintptr_t)(intptr_t)k, &x->n);
+	if (t_linked(&x->n, k))
+		return 1;
+	free(x);
+	return 0;
+}
+
+static int op_bulk(const char *kind, const char *ns, const char *ss)
+{
+	long n, seed = 0, i, lo, hi, linked = 0;
+	char lbl[48];
+	if (!parse_nat(ns, &n) || n < 1 || n > 200000) return 0;
+	if (!strcmp(kind, "rnd")) {
+		if (!ss || !parse_nat(ss, &seed)) return 0;
+	} else if (ss || (strcmp(kind, "asc") && strcmp(kind, "desc") && strcmp(kind, "alt"))) {
+		return 0;
+	}
+	rel.n = 0;
+	if (!strcmp(kind, "asc")) {
+		for (i = 1; i <= n; i++) linked += bulk_ins(i);
+	} else if (!strcmp(kind, "desc")) {
+		for (i = n; i >= 1; i--) linked += bulk_ins(i);
+	} else if (!strcmp(kind, "alt")) {
+		for (lo = 1, hi = n; lo <= hi; lo++, hi--) {
+			linked += bulk_ins(lo);
+			if (hi != lo) linked += bulk_ins(hi);
+		}
+	} else {
+		for (i = 1; i <= n; i++)
+			linked += bulk_ins((long long)(mix64(((uint64_t)seed << 32) + (uint64_t)i) >> 35));
+	}
+	snprintf(lbl, sizeof lbl, "bulk=%ld", linked);
+	mut_line(lbl, 0);
+	return 1;
+}
+
+/* ---- nested walks */
+#define NW_MAX 8
+struct NW {
+	struct KL outer;
+	struct KL inner[NW_MAX];
+	long idx[NW_MAX];
+	int nidx, pos;
+	long visits, cap;
+	struct AATree *itree;
+	enum AATreeWalkType iorder;
+	jmp_buf runaway;
+};
+
+static void nw_outer_cb(struct AANode *node, void *arg)
+{
+	struct NW *c = arg;
+	if (c->visits >= c->cap)
+		longjmp(c->runaway, 1);		/* a walk that does not end is a result too */
+	kl_add(&c->outer, ((struct N *)node)->key);
+	if (c->pos < c->nidx && c->visits == c->idx[c->pos]) {
+		int p = c->pos++;
+		aatree_walk(c->itree, c->iorder, collect_cb, &c->inner[p]);
+	}
+	c->visits++;
+}
+
+static int parse_order(const char *s, enum AATreeWalkType *t)
+{
+	if (!strcmp(s, "in")) *t = AA_WALK_IN_ORDER;
+	else if (!strcmp(s, "pre")) *t = AA_WALK_PRE_ORDER;
+	else if (!strcmp(s, "post")) *t = AA_WALK_POST_ORDER;
+	else return 0;
+	return 1;
+}
+
+static void put_canon(const struct KL *l, enum AATreeWalkType t)
+{
+	if (t == AA_WALK_IN_ORDER) {
+		put_keys(l);
+	} else {
+		struct KL srt = { NULL, 0, 0 };
+		size_t i;
+		for (i = 0; i < l->n; i++) kl_add(&srt, l->v[i]);
+		if (srt.n)
+			qsort(srt.v, srt.n, sizeof(long long), cmp_ll);
+		put_keys(&srt);
+		free(srt.v);
+	}
+}
+
+static int op_nwalk(char **w)
+{
+	static struct NW c;
+	enum AATreeWalkType oo;
+	char *p, *q;
+	int i, ran_away = 0;
+	memset(&c, 0, sizeof c);
+	if (!parse_order(w[1], &oo) || !parse_order(w[2], &c.iorder)) return 0;
+	if (!(w[3][0] == 't' && w[3][1] >= '0' && w[3][1] < '0' + NTREES && w[3][2] == 0)) return 0;
+	c.itree = &trees[w[3][1] - '0'];
+	for (p = w[4]; ; p = q + 1) {
+		char save;
+		q = p + strcspn(p, ",");
+		save = *q;
+		*q = 0;
+		if (c.nidx == NW_MAX || !parse_nat(p, &c.idx[c.nidx])) return 0;
+		if (c.nidx && c.idx[c.nidx] <= c.idx[c.nidx - 1]) return 0;
+		c.nidx++;
+		if (!save) break;
+	}
+	c.cap = 4 * (long)(t_size(tree.root) + t_size(c.itree->root)) + 16;
+	if (setjmp(c.runaway) == 0)
+		aatree_walk(&tree, oo, nw_outer_cb, &c);
+	else
+		ran_away = 1;
+	o_printf(ran_away ? "nw-runaway=" : "nw=");
+	put_canon(&c.outer, oo);
+	for (i = 0; i < c.pos; i++) {
+		o_printf(" i%ld=", c.idx[i]);
+		put_canon(&c.inner[i], c.iorder);
+	}
+	o_printf(" ## ");
+	put_keys(&c.outer);
+	for (i = 0; i < c.pos; i++) {
+		o_printf(" ");
+		put_keys(&c.inner[i]);
+	}
+	emit();
+	free(c.outer.v);
+	for (i = 0; i < NW_MAX; i++) free(c.inner[i].v);
+	return 1;
+}
+
 /* idx-th permutation of 1..n in lexicographic order (factoradic digits) */
 static void nth_perm(int n, long idx, int *out)
 {
@@ -518,6 +681,12 @@ int main(void)
 			   !(cur == &trees[NOCB_TREE] && !aatree_is_nil_node(tree.root))) {
 			aatree_destroy(&tree);
 			mut_line("destroy", 1);
+		} else if (nw == 1 && strcmp(w[0], "height") == 0) {
+			op_height();
+		} else if ((nw == 3 || nw == 4) && strcmp(w[0], "bulk") == 0 && op_bulk(w[1], w[2], nw == 4 ? w[3] : NULL)) {
+			/* answered */
+		} else if (nw == 5 && strcmp(w[0], "nwalk") == 0 && op_nwalk(w)) {
+			/* answered */
 		} else if (nw == 1 && strcmp(w[0], "count") == 0) {
 			printf("c=%d\n", tree.count);
 		} else if (nw == 6 && strcmp(w[0], "perms") == 0 && w == wbuf && op_perms(w)) {
